@@ -32,14 +32,21 @@ def _case(draw, tier):
     cfg = draw(gen.store_cfgs())
     cs = [draw(gen.contents(max_small=12, big=False)) for _ in range(3)]
     algo = cfg["algo"]
-    op = ops.weighted(
-        (6, ops.store_op(PIDS, 3, allow_none=True, validation=True)),
-        (5, ops.tag_op(PIDS, 3, algo, never=True)),
-        (3, ops.delete_op(PIDS)),
-        (1, ops.dii_op(3)),
-        (1, ops.decoy_op(PIDS)),
-        (1, ops.REOPEN))
-    return {"cfg": cfg, "contents": cs, "ops": draw(st.lists(ops.on_instances(op), min_size=2, max_size=24))}
+    # one case in four: a pid that is also the PATH OF AN EXISTING FILE, which is edited / removed / re-created between
+    # the calls (identifiers are opaque strings - what they happen to name on the host must not matter)
+    filepid = draw(st.integers(0, 3)) == 0
+    pids = ["p1", "p2", seq.PIDFILE[0]] if filepid else PIDS
+    parts = [(6, ops.store_op(pids, 3, allow_none=True, validation=True)),
+             (5, ops.tag_op(pids, 3, algo, never=True)),
+             (3, ops.delete_op(pids)),
+             (1, ops.dii_op(3)),
+             (1, ops.decoy_op(pids)),
+             (1, ops.REOPEN)]
+    if filepid:
+        parts.append((3, st.fixed_dictionaries({"op": st.just("pidfile"), "i": st.just(0),
+                                                "what": st.sampled_from(["edit", "remove", "create"])})))
+    op = ops.weighted(*parts)
+    return {"cfg": cfg, "contents": cs, "pids": pids, "ops": draw(st.lists(ops.on_instances(op), min_size=2, max_size=24))}
 
 
 def strategy(tier):
@@ -49,13 +56,16 @@ def strategy(tier):
 def _retrieves(run, pids):
     out = {}
     for p in pids:
-        o = common.retrieve_bytes(run.store, p)
+        o = common.retrieve_bytes(run.store, run.rp(p))
         out[p] = ("ok", o[1]) if is_ok(o) else ("err", o[1])
     return out
 
 
 def run_case(case, ctx):
     run = seq.Run(case, ctx)
+    PIDS = case.get("pids") or globals()["PIDS"]
+    if seq.PIDFILE[0] in PIDS:
+        ctx.classify("pid-names-an-existing-file")
     bound = {}      # pid -> cid, observational
     deleted_once = set()
     keys, rebound = [], False
